@@ -134,7 +134,7 @@ def check(run):
         run.distinct += 1
         run.count("nostd-custom-error/compiled")
         if nost[ns.name] is not None:
-            summ, src, rendered = nost[ns.name]
+            summ, src, rendered, _dcfg = nost[ns.name]
             run.violation("custom-error:nostd:%s" % shards.norm_msg(summ), "EnumString with parse_err_ty/parse_err_fn compiles with std but not under #![no_std]: %s" % summ,
                           detail={"enum": ns.render(), "diagnostics": rendered}, replay_src=src, replay_meta={"kind": "compile", "config": "a_nostd"})
     c01.offline_recheck(run, samples, spec_by_unit)
